@@ -22,7 +22,8 @@ def pool(chk, tier):
              'nan', 'NaN', '-nan', 'inf', '-inf', 'Infinity', '1_0', '٣', ' ', '  ', '\t', ' a']     # float() takes these for numbers (NaN breaks every law); they are texts
     dates = [dt.date(2024, 1, 1), dt.datetime(2024, 1, 1), dt.datetime(2024, 1, 1, 0, 0, 1),
              dt.datetime(2023, 12, 31, 23, 59, 59), dt.datetime(2024, 1, 1, 1, 10, 10), dt.date(2023, 12, 31),
-             dt.datetime(2024, 1, 1, 0, 0, 0, 1), dt.date(1900, 1, 1), dt.datetime(9999, 12, 31, 23, 59, 59, 999999)]
+             dt.datetime(2024, 1, 1, 0, 0, 0, 1), dt.date(1900, 1, 1), dt.datetime(9999, 12, 31, 23, 59, 59, 999999),
+             dt.date(1899, 12, 29), dt.datetime(1899, 12, 30), dt.datetime(1850, 6, 1), dt.datetime(1, 1, 1), dt.datetime(2100, 1, 1, 0, 0, 0, 1), dt.datetime(2100, 1, 1, 0, 0, 0, 2)]
     n_extra = 6 if tier == 'quick' else 40
     for _ in range(n_extra):
         ints.append(rng.randint(-10 ** rng.randint(1, 25), 10 ** rng.randint(1, 25)))
